@@ -461,13 +461,70 @@ func c19Trigger(p *Prog, c *Check) {
 	c.Analysed(shortFn(fn))
 	fi := p.Info(fn)
 	sets := callsTo(fn, "SetCurrentDecryptionTrigger")
+	// the store may live in a helper that is handed the slot and the keyper set and reports success:
+	// then the helper is analysed for the stored values, and its call stands for the store here
+	top, topFi := fn, fi
+	var via *ssa.Call
+	slotP, ksP := fn.Params[2], fn.Params[4]
+	if len(sets) == 0 {
+		var cands []*ssa.Call
+		for _, blk := range fn.Blocks {
+			for _, in := range blk.Instrs {
+				call, isCall := in.(*ssa.Call)
+				if !isCall {
+					continue
+				}
+				h := call.Common().StaticCallee()
+				if h == nil || h.Pkg != fn.Pkg || h.Blocks == nil || len(callsTo(h, "SetCurrentDecryptionTrigger")) != 1 {
+					continue
+				}
+				cands = append(cands, call)
+			}
+		}
+		if len(cands) == 1 {
+			h := cands[0].Common().StaticCallee()
+			var hs, hk *ssa.Parameter
+			for j, a := range cands[0].Common().Args {
+				if j >= len(h.Params) {
+					break
+				}
+				if a == ssa.Value(slotP) {
+					hs = h.Params[j]
+				}
+				if a == ssa.Value(ksP) {
+					hk = h.Params[j]
+				}
+			}
+			hfi := p.Info(h)
+			succ := hs != nil && hk != nil
+			if succ {
+				hset := callsTo(h, "SetCurrentDecryptionTrigger")[0].(*ssa.Call)
+				for _, r := range returnsOf(h) {
+					if len(r.Results) == 0 || !isErrorType(r.Results[len(r.Results)-1].Type()) {
+						succ = false
+						break
+					}
+					if hfi.errIsNil(r.Results[len(r.Results)-1], r, 0) != no && !hfi.mustPassSuccess(hset, r.Block()) {
+						succ = false
+					}
+				}
+			}
+			if succ {
+				via = cands[0]
+				fn, fi = h, hfi
+				slotP, ksP = hs, hk
+				sets = callsTo(h, "SetCurrentDecryptionTrigger")
+				c.Analysed(shortFn(h))
+			}
+		}
+	}
 	if len(sets) != 1 {
 		c.Fail(rule, "triggerDecryption:set", p.Rel(fn.Pos()), shortFn(fn), "triggerDecryption", "expected exactly one SetCurrentDecryptionTrigger")
 		return
 	}
 	set := sets[0].(*ssa.Call)
 	flds := fi.structLitFields(set.Common().Args[len(set.Common().Args)-1])
-	b := Binds{"slot": fi.T(fn.Params[2]), "ks": fi.T(fn.Params[4])}
+	b := Binds{"slot": fi.T(slotP), "ks": fi.T(ksP)}
 	ok := flds != nil &&
 		ParsePat("$slot").Match(flds["Slot"], b) &&
 		ParsePat("getTxPointer(_, _, $e, _)#0").Match(flds["TxPointer"], b) &&
@@ -493,6 +550,12 @@ func c19Trigger(p *Prog, c *Check) {
 	c.Result(ok, rule, "triggerDecryption:stored-trigger", p.siteOf(set), shortFn(fn), "SetCurrentDecryptionTrigger params", "the stored current trigger is not (eon, slot, pointer, hash(identities requested for slot/keyper set/pointer))", "consistent (eon, slot, txPointer, identitiesHash)")
 	// the send happens after the store succeeded, with the same identities
 	n := 0
+	alloFn, alloFi := fn, fi
+	anchor := set
+	if via != nil {
+		anchor = via
+	}
+	fn, fi = top, topFi
 	for _, blk := range fn.Blocks {
 		for _, in := range blk.Instrs {
 			sel, isSel := in.(*ssa.Select)
@@ -504,7 +567,7 @@ func c19Trigger(p *Prog, c *Check) {
 					continue
 				}
 				n++
-				okO := fi.mustPassSuccess(set, sel.Block())
+				okO := fi.mustPassSuccess(anchor, sel.Block())
 				c.Result(okO, rule, "triggerDecryption:store-before-send", p.siteOf(sel), shortFn(fn), "send of the decryption trigger", "the trigger can be sent without the current trigger having been stored successfully", "SetCurrentDecryptionTrigger == nil before send")
 			}
 		}
@@ -545,13 +608,14 @@ func c19Trigger(p *Prog, c *Check) {
 				}
 				n++
 				c.Analysed(shortFn(h))
-				okO := fi.mustPassSuccess(set, call.Block())
+				okO := fi.mustPassSuccess(anchor, call.Block())
 				c.Result(okO, rule, "triggerDecryption:store-before-send", p.siteOf(call), shortFn(fn), "send of the decryption trigger (in "+shortFn(h)+")", "the trigger can be sent without the current trigger having been stored successfully", "SetCurrentDecryptionTrigger == nil before send")
 			}
 		}
 	}
 	c.Floor(rule, n, 1)
 	// trigger literal carries the same identities
+	fn, fi = alloFn, alloFi
 	for _, blk := range fn.Blocks {
 		for _, in := range blk.Instrs {
 			al, isA := in.(*ssa.Alloc)
